@@ -96,6 +96,9 @@ class Graph:
                 if fol:
                     for inc in directives(files[p], "#include"):
                         rd(inc)
+                    for inc in directives(files[p], "#maybe"):      # read only if it exists (sources only)
+                        if inc in files:
+                            rd(inc)
             for p in direct_reads(self.sc, s):
                 rd(p)
             reads_of[sid] = [p for p, _ in reads]
@@ -344,6 +347,9 @@ def _simulate(graph, s, files):
         if fol:
             for inc in directives(files[p], "#include"):
                 if not rd(inc):
+                    return False
+            for inc in directives(files[p], "#maybe"):
+                if inc in files and not rd(inc):
                     return False
         return True
     for p in direct_reads(graph.sc, s):
